@@ -46,6 +46,7 @@ def program_stream(ctx, n_gen, yield_share=0.5):
     for i in range(max(8, n_gen // 3)):
         ast, src = gen.gen_yield_shape(random.Random(rng.getrandbits(48)))
         progs.append(("yshape%d" % i, src, ["-fyield-support"]))
+    progs += [(name, src, []) for name, src in gen.FEATURE_PROGRAMS if name != "feat-many-states"]
     return progs
 
 
@@ -62,8 +63,9 @@ def job(args):
     special = set(cdrv.special_bytes(P["I"]))
     cmds, meta = [P["cp"].init_vals()], []
     seen = set()
-    for k in range(10 if quick else 40):
-        inp = cdrv.random_input(m, rng, maxlen=rng.choice([3, 5, 6, 6, 9, 14, 30]), special=special)
+    directed = [list(x) for x in gen.FEATURE_INPUTS.get(name, [])]
+    for k in range((10 if quick else 40) + len(directed)):
+        inp = directed[k] if k < len(directed) else cdrv.random_input(m, rng, maxlen=rng.choice([3, 5, 6, 6, 9, 14, 30]), special=special)
         if len(inp) < 2 or tuple(inp) in seen:
             continue
         seen.add(tuple(inp))
